@@ -149,6 +149,14 @@ func TravelerSetValue(traveler gdbi.Traveler, path string, val interface{}) erro
 	if field == "" {
 		return nil
 	}
+	// an element whose properties were not loaded has no data map to write into
+	elem := traveler.GetCurrent()
+	if namespace != Current {
+		elem = traveler.GetMark(namespace)
+	}
+	if elem != nil && elem.Data == nil {
+		elem.Data = map[string]interface{}{}
+	}
 	doc := GetDoc(traveler, namespace)
 	return jsonpath.JsonPathSet(doc, field, val)
 }
